@@ -183,6 +183,24 @@ def run(ctx):
                 check_string(ctx, pre + tl, 'prefix')
         ctx.count('prefixed_strings', len(prefixes) * len(tails))
 
+    # long strings with a single defect late in the string (object paths have no length limit; a validator that looks at
+    # a prefix only, or stops looking after N characters, shows here): a valid long string, then the same with one
+    # character replaced / one element emptied at a late position
+    long_valid = ['/' + '/'.join(['seg%d' % k for k in range(90)]), '/' + 'a' * 700, '/a' * 400,
+                  '.'.join(['el%d' % k for k in range(50)]), ':1.' + '.'.join(['9'] * 100), 'M' * 250]
+    late = 0
+    for v in long_valid:
+        check_string(ctx, v, 'late-defect')
+        for pos in sorted(set([len(v) - 1, len(v) - 2, len(v) // 2, 254, 255, 256, 257, 260, 300, 511, 512, 513, 600]
+                              + [rng.randint(128, len(v) - 1) for _ in range(6)])):
+            if not 0 < pos < len(v):
+                continue
+            for ch in ('-', '!', ' ', '/', '.', '\n', 'é', ':'):
+                check_string(ctx, v[:pos] + ch + v[pos + 1:], 'late-defect')
+                check_string(ctx, v[:pos] + ch + v[pos:], 'late-defect')
+                late += 2
+    ctx.count('late_defect_strings', late)
+
     # random long strings, biased towards near-valid shapes
     nrand = (4000 if ctx.tier == 'quick' else 40000) // shard_n + 1
     weights = [12, 4, 2, 5, 1, 1, 4, 1, 1]
@@ -207,7 +225,8 @@ def run(ctx):
               'a' * 255, 'a.' + 'b' * 253, 'a.' + 'b' * 254, '/' + 'a' * 300, 'M' * 256, 'a b.c', 'a.b\n', 'M\n', '/a\n',
               ':1.2\n', 'a.b\r', '\na.b', 'M\0', '/a/b\n', 'a.b\n.c', 'org.freedesktop.DBus.Error.Out Of Range',
               'org.freedesktop.DBus.a..b', 'org.freedesktop.DBus.', 'org.freedesktop.DBus.1x', 'org.freedesktop.DBus.Peer',
-              '::1.2', ':1.2:3', ':a.b:c', 'a-1.b', 'a.-1', '//', '//a']
+              '::1.2', ':1.2:3', ':a.b:c', 'a-1.b', 'a.-1', '//', '//a',
+              '/' + 'a' * 300 + '-x', '/' + '/'.join(['seg'] * 80) + '/uuid-with-hyphens', '/a' * 200 + '//b', '/a' * 200 + '/']
     if shard_i == 0:
         constructor_matrix(ctx, names)
     ctx.require(ctx.counters.get('evaluations', 0) > 1000, 'too few evaluations')
